@@ -392,6 +392,23 @@ def _short(n: Node) -> str:
         return type(n.ast).__name__
 
 
+def count_on_paths(cfg: CFG, is_event: Callable[[Node], int], cap: int = 3,
+                   start: Node | None = None) -> dict[int, frozenset]:
+    """
+    For every node, the set of possible numbers of events (capped at `cap`)
+    seen on paths from `start` up to and including that node.  `is_event`
+    returns how many events a node contributes.
+    """
+    def transfer(n: Node, st: frozenset) -> frozenset:
+        k = is_event(n)
+        if not k:
+            return st
+        return frozenset(min(cap, c + k) for c in st)
+
+    IN = forward(cfg, frozenset([0]), transfer, lambda a, b: a | b, start=start)
+    return {nid: transfer(cfg.nodes[nid], st) for nid, st in IN.items()}
+
+
 def must_pass(cfg: CFG, start: Node, is_pass: Callable[[Node], bool],
               exits: Iterable[Node] | None = None,
               edge_ok: Callable[[Node, Any], bool] | None = None) -> list[list[Node]]:
